@@ -200,6 +200,7 @@ fn mk<T>(cap: Option<usize>) -> (Sender<T>, Receiver<T>) {
     (Sender { ch: ch.clone() }, Receiver { ch })
 }
 pub fn bounded<T>(cap: usize) -> (Sender<T>, Receiver<T>) {
+    // as the real crate (async-channel 2.x `bounded`): a zero capacity is a programming error
     assert!(cap > 0, "capacity cannot be zero");
     mk(Some(cap))
 }
